@@ -10,6 +10,7 @@ CONFIG = dict(
     rule=("Case = scenario + order + cache config. Oracle = graphref ancestry bitsets. Non-trivial = the run contains a block that "
           "delivers >= 2 events while some ancestor of its Atropos had been delivered by an earlier block; distinct by scenario hash."),
     assumptions=["forking validators hold < 1/3 of the weight"],
+    level_more='The instance sometimes processes a prefix of an epoch, is Reset to the same epoch and is fed the epoch again. Unit TestC02Shapes runs the property on the four large shapes (see C01), preferring the one-huge-block shape.',
     units=[dict(test="TestC02Delivery", quick=1800, thorough=96000, shards=16),
            # the rare large shapes: one block confirming 700-1200 events, 65-70 validators, 66-70 same-seq events
            dict(test="TestC02Shapes", quick=16, thorough=640, shards=16)],
